@@ -53,8 +53,8 @@ CLAIMED = {
   text="Deductive proof on lt_cred.go: both generators stamp the user name with the decimal text of floor((now+duration)/1s) (REST form: stamp, ':' and the user) and return base64(HMAC-SHA1(secret, username)); both handlers accept exactly when the (first field of the) user name parses as an integer that is >= the current Unix second, return GenerateAuthKey(full username, realm, base64(HMAC-SHA1(secret, full username))) and the documented user id; lemmas connect the generators' output format to the handlers' acceptance test (accepted at every second <= expiry, at none after).",
   ref="9 (C17)", note="Assumed, not proved: GenerateAuthKey's contract (MD5 of 'user:realm:password', trusted because it hashes through fmt.Fprint); strconv Atoi/FormatInt round trip and strings.Split field axioms (specs/crypto.spec); HMAC/MD5/base64 are functions of their inputs and collision-free (ideal hash, A4), which is what turns 'key differs' into 'never authenticates'; the end-to-end clause (real server and client) is covered only through C03's authenticateRequest contract.", technique=TECH),
  "C18": dict(
-  text="Deductive proof, over all control-flow paths (including error returns and armed defers) of every function under contract that takes a mutex, of lock balance (held count on exit equals entry), unlock-of-held, no self-deadlock (no re-acquisition of a lock this execution already holds) and the declared lock order.",
-  ref="9 (C18)", note="Only the lock clauses: data-race freedom, channel deadlocks and monitor invariants at unlock points (publish-before-arm window, DESIGN.md F5) are NOT decided by this check.", technique=TECH),
+  text="Deductive proof, over all control-flow paths (including error returns and armed defers) of every function under contract that takes a mutex, of lock balance (held count on exit equals entry), unlock-of-held, no self-deadlock (no re-acquisition of a lock this execution already holds) and the declared lock order; plus the declared lock discipline (`guarded F by L`, 22 fields: the allocation tables, the manager's allocation and reservation lists, the client's transaction / permission / binding tables, nonce, lifetime, timer state and relayed-socket pointers): every read of such a field or of the map stored in it happens with the object's lock held (read or write), every write with the write lock held, unless the object was allocated by the accessing execution; and Client.Close empties the transaction table under the same lock under which handlers claim transactions (no send on a closed result channel).",
+  ref="9 (C18)", note="Lock clauses and declared guarded-by discipline only: data-race freedom in general (fields without a declaration, e.g. Allocation.tcpConnections which is guarded by another object's lock, element accesses through a slice header read earlier), channel deadlocks and monitor invariants at unlock points (publish-before-arm window, DESIGN.md F5) are NOT decided by this check.", technique=TECH),
  "C19": dict(
   text="Deductive proof that every response built in internal/server carries the request's transaction id and goes to the request's socket and source address (caller-side clause at every buildAndSend / buildAndSendErr site), that Binding and Allocate report the request's source address, that Allocate reports the relayed address of the allocation just created and the lifetime armed, that an existing allocation yields either the cached success (same id, nothing created) or 437 (nothing changed), and that unknown comprehension-required attributes are answered 420 with the same method.",
   ref="9 (C19)", note="Assumed: stun.Build applies setters faithfully; reachability/uniqueness of the relayed address is C20 + the OS.", technique=TECH),
